@@ -2,6 +2,7 @@
 # re-evaluate every archived seeded change against the check of the property it breaks
 cd /verif
 for d in seeded/*/; do
+  [ -f "$d/meta.json" ] || continue
   n=$(basename $d)
   p=$(python3 -c "import json;print(json.load(open('$d/meta.json'))['breaks_property'])")
   r=$(tools/seed_eval.sh /verif/$d/patch.diff $p 2>&1 | tail -1 | cut -c1-160)
